@@ -16,9 +16,9 @@ type simDial struct {
 
 type simDialer struct{}
 
-func simDialInstall(n *simNet) (*simDialer, func())              { return &simDialer{}, func() {} }
-func (d *simDialer) pending() *simDial                           { return nil }
-func (d *simDialer) count() int                                  { return 0 }
-func (d *simDialer) all() []simDial                              { return nil }
-func (d *simDialer) accept(x *simDial, p *simPeerDef) *simSess   { return nil }
-func (d *simDialer) refuse(x *simDial)                           {}
+func simDialInstall(n *simNet) (*simDialer, func())            { return &simDialer{}, func() {} }
+func (d *simDialer) pending() *simDial                         { return nil }
+func (d *simDialer) count() int                                { return 0 }
+func (d *simDialer) all() []simDial                            { return nil }
+func (d *simDialer) accept(x *simDial, p *simPeerDef) *simSess { return nil }
+func (d *simDialer) refuse(x *simDial)                         {}
